@@ -30,6 +30,7 @@ fn main() {
             let kv: HashMap<String, String> = args[6..].iter().filter_map(|a| a.split_once('=').map(|(k, v)| (k.to_string(), v.to_string()))).collect();
             util::quiet_panics();
             std::fs::create_dir_all(out).unwrap();
+            util::set_out_dir(out);
             let mc = kv.get("mc").map(|s| s.as_str());
             let summary: Value = match prop {
                 "C05" => ids::gen_c05(tier, seed, out, mc),
